@@ -346,6 +346,54 @@ def proof_step(pid, cfg, log):
     return res
 
 
+TV_STRUCTS = {'GoEntityPool': 'pool', 'GoLocks': 'lock', 'GoIntPool': 'intpool', 'GoBitSet': 'bitset', 'GoPaged': 'paged'}
+
+
+def tv_structs(pid):
+    """The translated structures the property file of pid rests on."""
+    src = open(os.path.join(ROOT, "coq", "theories", "Properties", f"{pid}.v")).read()
+    return [k for g, k in TV_STRUCTS.items() if re.search(r'\bGen\.' + g + r'\b', src)]
+
+
+def translator_validation(pid, tier, seed, structs):
+    """The translator's output (extracted) against the real pool code, call by call."""
+    H = os.path.join(ROOT, "tv_harness", "tv_harness")
+    missing = [k for k in structs if not os.path.exists(os.path.join(ROOT, "ocaml", f"tvd_{k}"))]
+    if not os.path.exists(H) or missing:
+        return {'error': f"translator validation not built (tv_harness: {os.path.exists(H)}; drivers missing: {missing}; does Gen/Go*.v still compile?)", 'mismatches': 0}
+    n = 150 if tier == 'quick' else 1500
+    trace = os.path.join(WORK, f"tv_{pid}.trace")
+    p = sh(f"{H} -seed {seed % 100000} -n {n} > {trace}", check=False, timeout=600)
+    if p.returncode != 0:
+        return {'error': 'tv_harness failed: ' + (p.stderr or '')[-500:], 'mismatches': 0}
+    res = {'structures': {}, 'mismatches': 0, 'outside_model': 0, 'calls': 0, 'histories': 0,
+           'call_distribution_all_structures': (p.stderr or '').strip()[-400:], 'error': ''}
+    lines = []
+    for k in structs:
+        q = sh(f"{os.path.join(ROOT, 'ocaml', 'tvd_' + k)} < {trace}", check=False, timeout=600)
+        m = re.search(r'SUMMARY structure=\w+ histories=(\d+) calls=(\d+) mismatches=(\d+) outside=(\d+)', q.stdout)
+        if not m:
+            return {'error': f'tvd_{k} failed: ' + (q.stdout + q.stderr)[-500:], 'mismatches': 0}
+        res['structures'][k] = {'histories': int(m.group(1)), 'calls': int(m.group(2)), 'mismatches': int(m.group(3)), 'outside_model': int(m.group(4))}
+        res['histories'] += int(m.group(1)); res['calls'] += int(m.group(2))
+        res['mismatches'] += int(m.group(3)); res['outside_model'] += int(m.group(4))
+        lines += [l for l in q.stdout.splitlines() if l.startswith('MISMATCH')][:3]
+    if res['mismatches']:
+        rp = os.path.join(ROOT, "replays", f"{pid}-translator.txt")
+        with open(rp, 'w') as f:
+            f.write("# translator validation: the translation of the pool code (Gen/Go*.v) and the real code disagree\n")
+            f.write("# replay: tv_harness/tv_harness -seed %d -n %d | ocaml/tvd_<structure>\n" % (seed % 100000, n))
+            f.write("\n".join(lines) + "\n")
+            mm = re.search(r'line=(\d+)', lines[0])
+            if mm:
+                tl = open(trace).read().splitlines()
+                upto = int(mm.group(1))
+                start = max(i for i in range(upto) if tl[i].startswith('H '))
+                f.write("\n".join(tl[start:upto]) + "\n")
+        res['replay'] = rp
+    return res
+
+
 # ---------------------------------------------------------------- main
 def load_known():
     p = os.path.join(ROOT, "known_findings.json")
@@ -427,6 +475,16 @@ def main():
             if p.returncode != 0 or 'Axioms: <none>' not in out:
                 # stdlib axioms would be listed here; none is expected (see DESIGN.md 13.4)
                 broken.append(("coqchk", out[-3000:]))
+
+    # 2b. translator validation for the properties that rest on the translated pool code
+    tv = None
+    structs = tv_structs(pid)
+    if structs:
+        tv = translator_validation(pid, tier, seed, structs)
+        if tv.get('error'):
+            broken.append(("translator-validation", tv['error']))
+        elif tv['mismatches']:
+            broken.append(("translator-validation", open(tv['replay']).read()[:3000]))
 
     # 3. correspondence
     evals = 0
@@ -515,6 +573,25 @@ def main():
     for k in known:
         if k['id'] in seen_known or k.get('always_report'):
             known_lines.append(f"KNOWN-FINDING: property={pid} {k['what']}")
+    if broken and not violations and tv is not None:
+        # a tie proof no longer checks: search for a call sequence on which the translated code
+        # leaves the model (entity pool, lock mask) or the list semantics (bit set, paged slice, ID pool)
+        rounds = 400 if tier == 'quick' else 4000
+        sm = []
+        for k in structs:
+            d = os.path.join(ROOT, 'ocaml', 'tvd_' + k)
+            if os.path.exists(d):
+                q = sh(f"{d} spec {seed % 100000} {rounds}", check=False, timeout=900)
+                sm += [l for l in q.stdout.splitlines() if l.startswith('SPECMISMATCH')][:3]
+        if sm:
+            rp = os.path.join(ROOT, "replays", f"{pid}-code-vs-model.txt")
+            with open(rp, 'w') as f:
+                f.write(f"# property {pid}: the pool code of /repo (as translated into Gen/Go*.v) leaves the model on these call sequences\n")
+                f.write(f"# replay: ocaml/tvd_<structure> spec {seed % 100000} {rounds}\n")
+                f.write("\n".join(sm) + "\n\n")
+                for what, err in broken:
+                    f.write(f"== {what} no longer checks for property {pid}\n{err}\n")
+            violations.append((rp, ""))
     if broken and not violations:
         # a proof obligation or the build no longer checks, and the search found no failing input
         rp = os.path.join(ROOT, "replays", f"{pid}-obligation.txt")
@@ -546,6 +623,8 @@ def main():
         "violations": len(violations),
     }
     ev["coverage"].update({k: v for k, v in extra_evidence.items() if k != 'violations'})
+    if tv is not None:
+        ev["coverage"]["translator_validation"] = tv
     if ev["coverage"]["obligations"] == 0:
         ev["coverage"]["obligations"] = 1   # keep the schema's minimum; discharged stays 0
     json.dump(ev, open(os.path.join(ROOT, "evidence", f"{pid}.json"), 'w'), indent=1)
